@@ -16,6 +16,7 @@ import AcryoVerif.Model.Loader
 import AcryoVerif.Model.Cache
 import AcryoVerif.Model.Pca
 import AcryoVerif.Model.Pipe
+import AcryoVerif.Model.Chunks
 
 /-! Dispatch of hand-written model operations for the line-protocol driver. -/
 namespace Model
@@ -500,6 +501,31 @@ def opPipeC (a : Array Rat) : String :=
   | some (e, []) => Canon.canon ((buildC primP primC e).f ((List.range 8).map fun i => ((i : Nat) : Rat) - 3) a[0]!)
   | _ => "err:parse"
 
+/-- `pick3 scale d0 d1 d2 x0 x1 x2 n0 cs0… n1 cs1… n2 cs2…`: how many blocks keep the position
+(product over the axes) and where the keeping block reports it. -/
+def opPick3 (a : Array Rat) : String :=
+  let scale := a[0]!
+  let ds := [(i a 1).toNat, (i a 2).toNat, (i a 3).toNat]
+  let xs := [a[4]!, a[5]!, a[6]!]
+  let rest := a.toList.drop 7
+  let n0 := (rest.headD 0).floor.toNat
+  let cs0 := ((rest.drop 1).take n0).map (·.floor.toNat)
+  let rest1 := rest.drop (1 + n0)
+  let n1 := (rest1.headD 0).floor.toNat
+  let cs1 := ((rest1.drop 1).take n1).map (·.floor.toNat)
+  let rest2 := rest1.drop (1 + n1)
+  let n2 := (rest2.headD 0).floor.toNat
+  let cs2 := ((rest2.drop 1).take n2).map (·.floor.toNat)
+  let css := [cs0, cs1, cs2]
+  let per := (List.range 3).map fun ax =>
+    let cs := css.getD ax []
+    let d := Nat.min (ds.getD ax 0) cs.sum         -- depth is clipped to the image size
+    let x := xs.getD ax 0
+    let ks := blocksKeeping cs d x
+    (ks.length, ks.map fun j => reportGlobal cs d j (x - (chunkStart cs j : Rat) + (d : Rat)) scale)
+  let count := per.foldl (fun acc p => acc * p.1) 1
+  Canon.canon (count, per.map (·.2))
+
 def dispatch (name : String) (a : Array Rat) : Option String :=
   match name with
   | "prepAffine" => some (flat (opPrepAffine a))
@@ -545,6 +571,7 @@ def dispatch (name : String) (a : Array Rat) : Option String :=
   | "withLabel" => some (opWithLabel a)
   | "pipeP" => some (opPipeP a)
   | "pipeC" => some (opPipeC a)
+  | "pick3" => some (opPick3 a)
   | _ => none
 
 end Model
